@@ -1782,6 +1782,245 @@ var ruleKeyM7 = &Rule{
 			return []Ob{{Key: "KEY/M7:ReanalyseReferInfo", Site: c.Pos(f.Pos()), Verdict: VIOLATION,
 				Note: "some path returns without rebuilding the reference diagnostics although isHasErrorNoFile() was not found false on it: a file whose require could not be resolved keeps its stale `not find file` diagnostic after the module is created"}}
 		}
-		return []Ob{{Key: "KEY/M7:ReanalyseReferInfo", Site: c.Pos(f.Pos()), Verdict: OK, Note: "the rebuild is skipped only when the file has no unresolved reference"}}
+		obs := []Ob{{Key: "KEY/M7:ReanalyseReferInfo", Site: c.Pos(f.Pos()), Verdict: OK, Note: "the rebuild is skipped only when the file has no unresolved reference"}}
+		// the re-resolution starts from "valid": CheckReferFile only ever clears the flag of a reference it cannot resolve,
+		// so a reference that was unresolved before the file appeared stays invalid (and is not followed by the project
+		// pass) unless the flag is set again before the call
+		chk := c.SSAFunc(resultsPkg, "FileResult", "CheckReferFile")
+		if chk == nil {
+			return append(obs, Ob{Key: "KEY/M7:valid-reset", Verdict: UNDECIDED, Note: "slot unresolved: FileResult.CheckReferFile"})
+		}
+		setsTrueItself := false
+		for _, ins := range chk.Blocks[0].Instrs {
+			if st, ok := ins.(*ssa.Store); ok {
+				if fa, ok := st.Addr.(*ssa.FieldAddr); ok && fieldName(fa.X.Type(), fa.Field) == "Valid" {
+					if k, ok := st.Val.(*ssa.Const); ok && k.Value != nil && k.Value.Kind() == constant.Bool && constant.BoolVal(k.Value) {
+						setsTrueItself = true
+					}
+				}
+			}
+		}
+		nCalls := 0
+		for _, b := range f.Blocks {
+			for _, ins := range b.Instrs {
+				call, ok := ins.(*ssa.Call)
+				if !ok || call.Call.StaticCallee() != chk || len(call.Call.Args) < 2 {
+					continue
+				}
+				nCalls++
+				elem := call.Call.Args[1]
+				reset := setsTrueItself
+				for d := b; d != nil && !reset; d = d.Idom() {
+					for _, i2 := range d.Instrs {
+						if i2 == ins {
+							break
+						}
+						st, ok := i2.(*ssa.Store)
+						if !ok {
+							continue
+						}
+						fa, ok := st.Addr.(*ssa.FieldAddr)
+						if !ok || fa.X != elem || fieldName(fa.X.Type(), fa.Field) != "Valid" {
+							continue
+						}
+						if k, ok := st.Val.(*ssa.Const); ok && k.Value != nil && k.Value.Kind() == constant.Bool && constant.BoolVal(k.Value) {
+							reset = true
+						}
+					}
+				}
+				key := fmt.Sprintf("KEY/M7:valid-reset#%d", nCalls)
+				if reset {
+					obs = append(obs, Ob{Key: key, Site: c.Pos(call.Pos()), Verdict: OK, Note: "the reference is marked valid before it is resolved again"})
+				} else {
+					obs = append(obs, Ob{Key: key, Site: c.Pos(call.Pos()), Verdict: VIOLATION,
+						Note: "a reference is resolved again without being marked valid first: CheckReferFile only clears the flag, so a require that was unresolved once stays invalid after its file has been created"})
+				}
+			}
+		}
+		if nCalls == 0 {
+			obs = append(obs, Ob{Key: "KEY/M7:valid-reset", Site: c.Pos(f.Pos()), Verdict: UNDECIDED, Note: "ReanalyseReferInfo does not call CheckReferFile itself"})
+		}
+		return obs
+	},
+}
+
+// ---------------------------------------------------------------------------------------------
+// LOC/cr-at-end: a lone CR that is the last byte of the text ends a line
+
+var ruleLocCRAtEnd = &Rule{
+	Name:    "LOC/cr-at-end",
+	NeedSSA: true,
+	Text: "in the position-to-offset converters a byte equal to '\\r' ends a line unless the byte after it is '\\n'; when there is no byte after it (the bounds test on the " +
+		"next index fails) the CR is a lone one and ends the line too. Decided on the branch structure: from the branch taken when the byte equals '\\r', following the " +
+		"outcome `next index is not inside the text` of every bounds comparison on the way, the code reaches the same block as for a byte equal to '\\n'. (`c == '\\r' && " +
+		"i+1 < len && s[i+1] != '\\n'` is the De Morgan slip: a document whose last byte is a lone CR loses its last, empty line, and an edit on that line is rejected)",
+	Run: func(c *Ctx) []Ob {
+		var obs []Ob
+		n := 0
+		for _, lc := range lineCounters {
+			f := c.SSAFunc(lc[0], lc[1], lc[2])
+			if f == nil {
+				obs = append(obs, Ob{Key: "LOC/cr-at-end:" + lc[2], Verdict: UNDECIDED, Note: "slot unresolved: " + lc[2]})
+				continue
+			}
+			// the function and the private helpers of its package it calls (isLineEnd(contents, index, c))
+			fns := []*ssa.Function{f}
+			for _, b := range f.Blocks {
+				for _, ins := range b.Instrs {
+					if call, ok := ins.(*ssa.Call); ok {
+						if h := call.Call.StaticCallee(); h != nil && h.Blocks != nil && h.Pkg == f.Pkg && h != f {
+							fns = append(fns, h)
+						}
+					}
+				}
+			}
+			found := false
+			for _, g := range fns {
+				byteTest := func(b *ssa.BasicBlock, ch int64) bool {
+					iff, ok := b.Instrs[len(b.Instrs)-1].(*ssa.If)
+					if !ok {
+						return false
+					}
+					bo, ok := iff.Cond.(*ssa.BinOp)
+					if !ok || bo.Op != token.EQL {
+						return false
+					}
+					for _, side := range []ssa.Value{bo.X, bo.Y} {
+						if k, ok := side.(*ssa.Const); ok && k.Value != nil && k.Value.Kind() == constant.Int && k.Int64() == ch {
+							return true
+						}
+					}
+					return false
+				}
+				var bn, br *ssa.BasicBlock
+				for _, b := range g.Blocks {
+					if byteTest(b, '\n') && bn == nil {
+						bn = b
+					}
+					if byteTest(b, '\r') && br == nil {
+						br = b
+					}
+				}
+				if bn == nil || br == nil {
+					continue
+				}
+				found = true
+				n++
+				key := "LOC/cr-at-end:" + lc[2]
+				// Both bytes are followed from the true edge of their test to the first block that does something (anything
+				// but phis, negations and decided branches) or to a return; boolean phis and negations are evaluated along the
+				// way, so the same walk reads `return c == '\n' || (c == '\r' && !(i+1 < n && s[i+1] == '\n'))` in a helper.
+				// A comparison with len(...) is decided as "the next index is not inside the text".
+				walk := func(from, start *ssa.BasicBlock) (*ssa.BasicBlock, *bool) {
+					env := map[ssa.Value]bool{}
+					val := func(v ssa.Value) (bool, bool) {
+						if k, ok := v.(*ssa.Const); ok && k.Value != nil && k.Value.Kind() == constant.Bool {
+							return constant.BoolVal(k.Value), true
+						}
+						x, ok := env[v]
+						return x, ok
+					}
+					prev, cur := from, start
+					for step := 0; step < 12; step++ {
+						pi := -1
+						for i, p := range cur.Preds {
+							if p == prev {
+								pi = i
+							}
+						}
+						passive := true
+						for _, ins := range cur.Instrs[:len(cur.Instrs)-1] {
+							switch x := ins.(type) {
+							case *ssa.Phi:
+								if pi >= 0 {
+									if bv, ok := val(x.Edges[pi]); ok {
+										env[x] = bv
+									}
+								}
+							case *ssa.UnOp:
+								if x.Op == token.NOT {
+									if bv, ok := val(x.X); ok {
+										env[x] = !bv
+									}
+								} else {
+									passive = false
+								}
+							case *ssa.DebugRef:
+							default:
+								passive = false
+							}
+						}
+						switch t := cur.Instrs[len(cur.Instrs)-1].(type) {
+						case *ssa.Return:
+							if len(t.Results) == 1 {
+								if bv, ok := val(t.Results[0]); ok {
+									return cur, &bv
+								}
+							}
+							return cur, nil
+						case *ssa.Jump:
+							if !passive {
+								return cur, nil
+							}
+							prev, cur = cur, cur.Succs[0]
+						case *ssa.If:
+							if bv, ok := val(t.Cond); ok {
+								if !passive {
+									return cur, nil
+								}
+								next := cur.Succs[1]
+								if bv {
+									next = cur.Succs[0]
+								}
+								prev, cur = cur, next
+								continue
+							}
+							bo, ok := t.Cond.(*ssa.BinOp)
+							if !ok {
+								return cur, nil
+							}
+							_, lenY := isLenCall(bo.Y)
+							_, lenX := isLenCall(bo.X)
+							var truth bool
+							switch {
+							case lenY && (bo.Op == token.LSS || bo.Op == token.LEQ): // i+1 < len
+								truth = false
+							case lenY && (bo.Op == token.GEQ || bo.Op == token.GTR):
+								truth = true
+							case lenX && (bo.Op == token.GTR || bo.Op == token.GEQ): // len > i+1
+								truth = false
+							case lenX && (bo.Op == token.LSS || bo.Op == token.LEQ):
+								truth = true
+							default:
+								return cur, nil // reads the next byte (or something else) although there is none
+							}
+							next := cur.Succs[1]
+							if truth {
+								next = cur.Succs[0]
+							}
+							prev, cur = cur, next
+						default:
+							return cur, nil
+						}
+					}
+					return cur, nil
+				}
+				nBlock, nRet := walk(bn, bn.Succs[0])
+				rBlock, rRet := walk(br, br.Succs[0])
+				verdict, note := VIOLATION, "a '\\r' that is the last byte of the text does not reach the line-end branch: the last, empty line of a CR-terminated document does not exist for the server"
+				switch {
+				case nRet != nil && rRet != nil && *nRet == *rRet:
+					verdict, note = OK, "a '\\r' with no byte after it yields the same result as a '\\n'"
+				case nRet == nil && rRet == nil && nBlock == rBlock:
+					verdict, note = OK, "a '\\r' with no byte after it takes the line-end branch"
+				}
+				obs = append(obs, Ob{Key: key, Site: c.Pos(br.Instrs[len(br.Instrs)-1].Pos()), Verdict: verdict, Note: note})
+			}
+			if !found {
+				obs = append(obs, Ob{Key: "LOC/cr-at-end:" + lc[2], Site: c.Pos(f.Pos()), Verdict: UNDECIDED, Note: "no byte tests for '\\n' and '\\r' found in " + lc[2] + " or its helpers"})
+			}
+		}
+		obs = append(obs, floor("LOC/cr-at-end", "converters with a CR test", n, 2))
+		return obs
 	},
 }
